@@ -92,6 +92,8 @@ def main():
             res[pid] = {"verdict": verdict, "exit": p.returncode, "wall_s": round(time.time() - t0, 1),
                         "signatures": sigs[:12], "stderr_tail": p.stderr[-600:] if verdict.startswith("BROKEN") else ""}
             print(f"{os.path.basename(d)} {pid} {tier}: {verdict} {sigs[:4]}", flush=True)
+            if verdict.startswith("BROKEN"):
+                print("   stderr tail:", p.stderr[-1200:].replace("\n", " | "), flush=True)
             summary.append((d, pid, verdict))
         head = sh(f"git -C {REPO} rev-parse --short HEAD").stdout.strip()
         if "checks_run" in meta:
